@@ -4,6 +4,12 @@ package server
 
 // Contracts for the deductive verifier in /verif (vcgo). Comment-only.
 
+// set once by Serve before any goroutine or connection exists, never reassigned
+//@ fieldinv server.Server.cols nonnil
+//@ fieldinv server.Server.config nonnil
+//@ func Serve
+//@   constructor
+
 // ---- regions of server state (effect inference, properties C03 C07 C15 C18) ----
 //@ region Keyspace: server.Server.cols, collection.Collection.*
 //@ region Hooks: server.Server.hooks, server.Server.hooksOut, server.Server.hookTree, server.Server.hookCross, server.Server.hookExpires, server.Server.groupHooks, server.Server.groupObjects
@@ -280,8 +286,7 @@ package server
 //@   internal-caller
 //@   frame-by-effects
 //@   uses btree.map.vals
-//@   requires s != nil && s.cols != nil && s.config != nil && lock == 2 && !pending
-//@   requires [cols-wellformed] forall(k, 0, len(mapVals(*s.cols)), astype(mapVals(*s.cols)[k], "collection.Collection").expires != nil)
+//@   requires s != nil && s.config != nil && lock == 2 && !pending
 //@   modifies pending, steps, ndispatched, lastDispatched, perCall
 //@   ensures [lock-balance] lock == 2
 //@   ensures [logged] !pending
@@ -300,3 +305,10 @@ package server
 //@   ensures [logged] !pending
 //@   loop 1 invariant lock == 2 && !pending
 //@   loop 2 invariant lock == 2 && !pending
+//@ func Server.backgroundExpiring
+//@   lockcheck
+//@   internal-caller
+//@   frame-by-effects
+//@   requires s != nil && lock == 0 && !pending
+//@   modifies lock, pending, steps, ndispatched, lastDispatched, perCall
+//@   closure 1 invariant lock == 0 && !pending
